@@ -27,6 +27,7 @@ import CelloProofs.Lemmas.MarkType
 import Cello.HeapMid
 import CelloGen.GcMid
 import CelloProofs.Lemmas.MarkMid
+import CelloProofs.Lemmas.MarkDeep
 
 namespace Cello.Heap
 
@@ -1671,5 +1672,264 @@ example : ((runOp .array .popAt { shape := Shape.array, zero := 0, i := 0 } [10,
 example : MarkSafe { shape := Shape.array, zero := Obj.raw "Ref" [0], i := 0 }
       ((Mach.init [Obj.raw "Ref" [4160], Obj.raw "Ref" [4224]]).exec { shape := Shape.array, zero := Obj.raw "Ref" [0], i := 0 } (prog .array false .popAt)) :=
   C01_array_pop_at_mark_safe _ [] _ rfl (by decide)
+
+end Cello.Heap.Mid
+
+/-! ### element types whose Assign instance ALLOCATES: the publication order of the operations that assign an element
+
+  An element type like `struct Record { var name; var tags; }` with a deep-copying `Record_Assign` allocates once per field; every allocation
+  may run a threshold collection.  At allocation point `k` the first `k` fields of the copy are stored in the target element and are
+  reachable through nothing else.  `DMach` (Cello/HeapMid.lean) runs the statement lists of the current source and records what the
+  container's Mark instance presents at every allocation point (`AView`); `DeepSafe`: only constructed cells, every kept element, and the
+  element under assignment as soon as it holds a new field.  Proved for the operations that assign in place behind the publication
+  (`Array_Push`, `Array_Push_At`, `Array_Set`, `List_Set`, `Tree_Set` on an existing key); refuted for the order of the seeded changes c01_l /
+  c01_j and — a known finding of the unchanged tree — for the operations that build the entry outside the structure (`List_Push`,
+  `List_Push_At`, `Table_Set_Move`, `Tree_Set` on a new key). -/
+
+namespace Cello.Heap.Mid
+open CelloGen.GcMid
+variable {α : Type}
+
+/-- **Array_Push, element type with an allocating Assign instance.**  For every Array (any content, any block size), every element type
+    (`D`: any sequence of partly assigned states) and every operand: at EVERY allocation point of the Assign instance `Array_Mark` reads only
+    constructed elements, presents every element the Array held, and presents the new element in its partly assigned state — `nitems++` and
+    `Array_Alloc` (zeroed slot, valid header) come BEFORE `assign` in `CelloGen.GcMid.arrayPush`, re-extracted from src/Array.c on every run.
+    With `nitems++` behind `assign` (seeded change c01_l) this theorem is false: `C01_array_push_count_after_assign_refuted`. -/
+theorem C01_array_push_deep_safe (D : Deep α) (elems : List α) (k : Nat) (env : Env α) (hs : env.shape = Shape.array) :
+    DeepSafe env ((DMach.initCap elems (List.replicate k none)).exec D env (prog .array false .push)) := by
+  have hrun : ∃ rest, (DMach.initCap elems (List.replicate k none)).exec D env (prog .array false .push) =
+      DMach.run D env [.alloc .last, .assign .last] { m := { cells := elems.map some ++ none :: rest, n := elems.length + 1 } } := by
+    by_cases hk : k = 0
+    · subst hk
+      have : elems.length + 1 + (elems.length + 1) / 2 - elems.length = (elems.length + 1) / 2 + 1 := by omega
+      refine ⟨List.replicate ((elems.length + 1) / 2) none, ?_⟩
+      simp [prog, DMach.exec, DMach.instr, arrayPush, DMach.run, DMach.step, Mach.step, DMach.initCap, Mach.initCap, this, List.replicate_succ]
+    · obtain ⟨k', rfl⟩ := Nat.exists_eq_succ_of_ne_zero hk
+      refine ⟨List.replicate k' none, ?_⟩
+      simp [prog, DMach.exec, DMach.instr, arrayPush, DMach.run, DMach.step, Mach.step, DMach.initCap, Mach.initCap, List.replicate_succ]
+  obtain ⟨rest, hrun⟩ := hrun
+  rw [hrun]
+  refine deepSafe_of_avs (array_push_dstate D elems rest env hs) ?_ ?_ ?_
+  · intro q c hc
+    rcases List.mem_append.mp hc with h | h
+    · exact all_some_map elems c h
+    · rw [List.mem_singleton] at h; rw [h]; simp
+  · intro q; simp
+  · intro q x hx
+    rw [DMach.run_m, array_push_final elems rest env hs] at hx
+    rcases List.mem_append.mp hx with h | h
+    · exact Or.inr (List.mem_append_left _ (some_mem_map_some.mpr h))
+    · rw [List.mem_singleton] at h; exact Or.inl h
+
+/-- **Array_Push_At**, the same: `nitems++`, room, memmove, `Array_Alloc(i)`, then `assign` (seeded change c01_j moves `nitems++` behind it:
+    `C01_array_push_at_count_after_assign_refuted`) -/
+theorem C01_array_push_at_deep_safe (D : Deep α) (elems : List α) (k : Nat) (env : Env α) (hs : env.shape = Shape.array)
+    (hi : env.i ≤ elems.length) :
+    DeepSafe env ((DMach.initCap elems (List.replicate k none)).exec D env (prog .array false .pushAt)) := by
+  have hrun : ∃ rest, (DMach.initCap elems (List.replicate k none)).exec D env (prog .array false .pushAt) =
+      DMach.run D env [.moveUp (-1), .alloc .idx, .assign .idx] { m := { cells := elems.map some ++ none :: rest, n := elems.length + 1 } } := by
+    by_cases hk : k = 0
+    · subst hk
+      have : elems.length + 1 + (elems.length + 1) / 2 - elems.length = (elems.length + 1) / 2 + 1 := by omega
+      refine ⟨List.replicate ((elems.length + 1) / 2) none, ?_⟩
+      simp [prog, DMach.exec, DMach.instr, arrayPushAt, DMach.run, DMach.step, Mach.step, DMach.initCap, Mach.initCap, this, List.replicate_succ]
+    · obtain ⟨k', rfl⟩ := Nat.exists_eq_succ_of_ne_zero hk
+      refine ⟨List.replicate k' none, ?_⟩
+      simp [prog, DMach.exec, DMach.instr, arrayPushAt, DMach.run, DMach.step, Mach.step, DMach.initCap, Mach.initCap, List.replicate_succ]
+  obtain ⟨rest, hrun⟩ := hrun
+  have hsplit : elems.map some = (elems.map some).take env.i ++ (elems.map some).drop env.i := (List.take_append_drop _ _).symm
+  have hlenA : ((elems.map some).take env.i).length = env.i := by simp [hi]
+  have hlen : elems.length + 1 = ((elems.map some).take env.i).length + ((elems.map some).drop env.i).length + 1 := by simp; omega
+  have hst := array_push_at_dstate D ((elems.map some).take env.i) ((elems.map some).drop env.i) rest env hs hlenA.symm
+  have hfin := array_push_at_final ((elems.map some).take env.i) ((elems.map some).drop env.i) rest env hs hlenA.symm
+  rw [← hsplit, ← hlen] at hst hfin
+  rw [hrun]
+  refine deepSafe_of_avs hst ?_ ?_ ?_
+  · intro q c hc
+    simp only [List.mem_append, List.mem_cons] at hc
+    rcases hc with h | h | h
+    · exact all_some_map elems c (List.mem_of_mem_take h)
+    · rw [h]; simp
+    · exact all_some_map elems c (List.mem_of_mem_drop h)
+  · intro q; simp
+  · intro q x hx
+    rw [Mach.final, DMach.run_m, hfin, mem_filterMap_id] at hx
+    simp only [List.mem_append, List.mem_cons] at hx ⊢
+    rcases hx with h | h | h
+    · exact Or.inr (Or.inl h)
+    · exact Or.inl (Option.some.inj h)
+    · exact Or.inr (Or.inr (Or.inr h))
+
+/-- the allocation points of an in-place assignment, on a container whose Mark instance presents all its cells -/
+theorem C01_in_place_assign_deep_safe (D : Deep α) (elems : List α) (env : Env α) (hi : env.i < elems.length) (st : DMach α)
+    (hc : st.m.cells = elems.map some) (hn : st.m.n = elems.length) (hav : st.aviews = [])
+    (hp : ∀ cells : List (Cell α), cells.length = elems.length → presented env.shape cells elems.length = cells) :
+    DeepSafe env (DMach.run D env [.assign .idx] st) := by
+  obtain ⟨h1, h2⟩ := set_dstate D elems env hi st hc hn hav hp
+  refine deepSafe_of_avs h1 (fun q => all_some_set) (fun q => self_mem_set _ (by simpa using hi)) ?_
+  intro q x hx
+  rw [Mach.final, h2, mem_filterMap_id] at hx
+  rcases mem_set_other (q := some q) hx with h | h
+  · exact Or.inl (Option.some.inj h)
+  · exact Or.inr h
+
+/-- **Array_Set / List_Set**: the element is assigned in place, inside the range the Mark instance walks -/
+theorem C01_seq_set_deep_safe (D : Deep α) (elems : List α) (env : Env α) (hi : env.i < elems.length) :
+    (env.shape = Shape.array → DeepSafe env ((DMach.initCap elems []).exec D env (prog .array false .set))) ∧
+    (env.shape = Shape.list → DeepSafe env ((DMach.initCap elems []).exec D env (prog .list false .set))) := by
+  constructor <;> intro hs
+  · exact C01_in_place_assign_deep_safe D elems env hi _ (by simp [DMach.initCap, Mach.initCap]) rfl rfl
+      (fun cells hl => by rw [hs]; exact presented_array_full cells _ hl)
+  · exact C01_in_place_assign_deep_safe D elems env hi _ (by simp [DMach.initCap, Mach.initCap]) rfl rfl
+      (fun cells _ => by rw [hs]; exact presented_list cells _)
+
+/-- **Tree_Set on a key that exists**: key and value are assigned in the node that is linked in the tree -/
+theorem C01_tree_set_deep_safe (D : Deep α) (elems : List α) (env : Env α) (hs : env.shape = Shape.tree) (hi : env.i < elems.length) :
+    DeepSafe env ((DMach.initCap elems []).exec D env (prog .tree false .set)) := by
+  have hrun : (DMach.initCap elems []).exec D env (prog .tree false .set) =
+      DMach.run D env [.assign .idx] ((DMach.initCap elems []).step D env (.assignKey .idx)) := by
+    simp [prog, DMach.exec, DMach.instr, treeSetEqual, DMach.run]
+  rw [hrun]
+  exact C01_in_place_assign_deep_safe D elems env hi _ (by simp [DMach.step, Mach.step, Mach.view, DMach.initCap, Mach.initCap])
+    (by simp [DMach.step, Mach.step, Mach.view, DMach.initCap, Mach.initCap]) (by simp [DMach.step, DMach.initCap])
+    (fun cells _ => by rw [hs]; exact presented_tree_full cells _ (by omega))
+
+/-! the publication order `nitems++` AFTER `assign` (seeded changes c01_l: Array_Push, c01_j: Array_Push_At) -/
+
+/-- the claim for an arbitrary statement order of an Array operation that adds one element -/
+def DeepSafeOrder (evs : List Ev) : Prop :=
+  ∀ (D : Deep (List Nat)) (elems : List (List Nat)) (env : Env (List Nat)), env.shape = Shape.array → env.i ≤ elems.length →
+    DeepSafe env ((DMach.initCap elems []).exec D env [.seq evs])
+
+/-- an allocation point at which a stored field of the element under assignment is not presented: a collection there frees the object -/
+def LosesField (r : DMach (List Nat)) : Prop := ∃ v ∈ r.aviews, v.k ≠ 0 ∧ some v.part ∉ v.cells
+
+theorem C01_loses_field_not_deep_safe {env : Env (List Nat)} {r : DMach (List Nat)} (h : LosesField r) : ¬ DeepSafe env r := by
+  intro hs
+  obtain ⟨v, hv, hk, hp⟩ := h
+  rcases (hs v hv).2.1 with h0 | h0
+  · exact hk h0
+  · exact hp h0
+
+/-- a record of two pointer fields, pushed into the empty Array / List / Table / Tree; the copies will be the objects 4160 and 4224 -/
+def deepEnv (sh : Shape) : Env (List Nat) := { shape := sh, zero := [0, 0], src := [[4160, 4224]] }
+
+/-- **`a->nitems++` behind `assign(Array_Item(a, a->nitems), obj)`** (seeded change c01_l): pushing the record [4160, 4224] into the empty Array, the
+    allocation point of the second field finds the first field stored in a slot `Array_Mark` does not walk: the view presents nothing, object 4160
+    is held by nothing the collector sees -/
+theorem C01_array_push_count_after_assign_refuted :
+    LosesField ((DMach.initCap [] []).exec (Deep.words 2) (deepEnv Shape.array) [.seq [.reserveFor 1, .alloc .atLen, .assign .atLen, .inc]]) ∧
+    ¬ DeepSafeOrder [.reserveFor 1, .alloc .atLen, .assign .atLen, .inc] := by
+  have h : LosesField ((DMach.initCap [] []).exec (Deep.words 2) (deepEnv Shape.array) [.seq [.reserveFor 1, .alloc .atLen, .assign .atLen, .inc]]) :=
+    ⟨⟨0, 1, [4160, 0], []⟩, by decide, by decide, by decide⟩
+  exact ⟨h, fun hall => C01_loses_field_not_deep_safe h (hall _ _ _ rfl (by decide))⟩
+
+/-- the same order in Array_Push_At (seeded change c01_j) -/
+theorem C01_array_push_at_count_after_assign_refuted :
+    ¬ DeepSafeOrder [.reserveFor 1, .moveUp 0, .alloc .idx, .assign .idx, .inc] := by
+  intro hall
+  refine C01_loses_field_not_deep_safe ?_ (hall (Deep.words 2) [] (deepEnv Shape.array) rfl (by decide))
+  exact ⟨⟨0, 1, [4160, 0], []⟩, by decide, by decide, by decide⟩
+
+/-! known finding KF-C01-unlinked-entry-assign: the unchanged tree builds the new entry of a List / Table / Tree OUTSIDE the structure -/
+
+/-- the full statement: every operation that assigns an element is deep-safe -/
+def C01_entry_assign_deep_safe_statement : Prop :=
+  ∀ (D : Deep (List Nat)) (elems : List (List Nat)) (env : Env (List Nat)), env.i ≤ elems.length →
+    (env.shape = Shape.list → DeepSafe env ((DMach.initCap elems []).exec D env (prog .list false .push)) ∧
+                              DeepSafe env ((DMach.initCap elems []).exec D env (prog .list false .pushAt))) ∧
+    (env.shape = Shape.table → DeepSafe env ((DMach.initCap elems []).exec D env (prog .table false .setNew)) ∧
+                               DeepSafe env ((DMach.initCap elems []).exec D env (prog .table false .set))) ∧
+    (env.shape = Shape.tree → DeepSafe env ((DMach.initCap elems []).exec D env (prog .tree elems.isEmpty .setNew)))
+
+/-- **KF-C01-unlinked-entry-assign.**  `List_Push` / `List_Push_At` assign the new element in a cell that `List_Link` has not linked in yet,
+    `Table_Set_Move` builds the entry in the swap space, `Tree_Set` assigns key and value of a node that no parent links yet: at the second
+    allocation point of the value's Assign instance the first stored field is presented by no Mark instance (the statement lists are those of
+    the current source, `CelloGen.GcMid`) — with the record [4160, 4224] pushed into / set in the empty container, a collection there frees
+    object 4160 -/
+theorem C01_entry_assign_deep_safe_refuted :
+    LosesField (runOpD (Deep.words 2) .list .push (deepEnv Shape.list) []) ∧
+    LosesField (runOpD (Deep.words 2) .list .pushAt (deepEnv Shape.list) []) ∧
+    LosesField (runOpD (Deep.words 2) .table .setNew (deepEnv Shape.table) []) ∧
+    LosesField (runOpD (Deep.words 2) .table .set (deepEnv Shape.table) []) ∧
+    LosesField (runOpD (Deep.words 2) .tree .setNew (deepEnv Shape.tree) []) ∧
+    ¬ C01_entry_assign_deep_safe_statement := by
+  have h1 : LosesField (runOpD (Deep.words 2) .list .push (deepEnv Shape.list) []) := ⟨⟨0, 1, [4160, 0], []⟩, by decide, by decide, by decide⟩
+  refine ⟨h1, ⟨⟨0, 1, [4160, 0], []⟩, by decide, by decide, by decide⟩, ⟨⟨0, 1, [4160, 0], []⟩, by decide, by decide, by decide⟩,
+    ⟨⟨0, 1, [4160, 0], []⟩, by decide, by decide, by decide⟩, ⟨⟨0, 1, [4160, 0], []⟩, by decide, by decide, by decide⟩, ?_⟩
+  intro hall
+  exact C01_loses_field_not_deep_safe h1 ((hall (Deep.words 2) [] (deepEnv Shape.list) (by decide)).1 rfl).1
+
+/-- … what does hold there: at the FIRST allocation point (nothing stored yet) every element the container keeps is presented -/
+theorem C01_list_push_first_point_partial (D : Deep α) (elems : List α) (env : Env α) (hs : env.shape = Shape.list) :
+    ∀ v ∈ ((DMach.initCap elems []).exec D env (prog .list false .push)).aviews, v.cells = elems.map some := by
+  intro v hv
+  simp only [prog, DMach.exec, DMach.instr, listPush, DMach.run, DMach.step, Mach.step, Mach.view, DMach.initCap, Mach.initCap, Mach.presented,
+    hs, presented_list, List.foldl, List.append_nil, List.nil_append] at hv
+  exact (mem_avs hv).2
+
+end Cello.Heap.Mid
+
+namespace Cello.Heap
+open Cello.Heap.Mid
+
+/-- a container of embedded elements presents the words of its elements: more elements, more words -/
+theorem C01_fields_cont_mono (c : Cfg) (ty : String) {es es' : List Obj} (h : ∀ e ∈ es, e ∈ es') :
+    ∀ w ∈ fields c (.cont ty es), w ∈ fields c (.cont ty es') := by
+  intro w hw
+  simp only [fields] at hw ⊢
+  split at hw
+  · cases hw
+  · split at hw
+    · rename_i hleaf hmark
+      simp only [hleaf, hmark, if_true, if_false, Bool.false_eq_true]
+      obtain ⟨e, he, hwe⟩ := mem_fieldsL.mp hw
+      exact mem_fieldsL.mpr ⟨e, h e he, hwe⟩
+    · cases hw
+
+/-- **A collection at an allocation point of an element's Assign instance.**  The container of embedded elements at `a` is, at the allocation
+    point of view `v`, the container `.cont ty v.elems`.  `keep`: elements the container holds when the operation completes, other than the
+    operand's copies that are not complete yet.  For a deep-safe operation, a collection that runs NOW (no extra root: the copies are held by
+    nothing but the container) keeps everything that is reachable through the kept elements and through the element under assignment as far as
+    it is assigned (`v.part`, once a field is stored): registered, unchanged, off the pending list. -/
+theorem C01_deep_op_collection_safe {σ : Type} (S : MarkSet σ) (c : Cfg) (h : Heap) (wf : h.WF) (thread : Obj) (stack : List Word)
+    (a : Addr) (root : Bool) (ty : String) (env : Env Obj) (r : DMach Obj) (hsafe : DeepSafe env r) (v : AView Obj) (hv : v ∈ r.aviews)
+    (keep : List Obj) (hkeep : ∀ x ∈ keep, x ∈ r.m.final env ∧ x ∉ env.src.drop v.j ∧ x ≠ env.zero)
+    (hl : h.lookup a = some ⟨.cont ty v.elems, root⟩) (x : Addr)
+    (hr : Reachable c (h.write a (.cont ty (keep ++ (if v.k = 0 then [] else [v.part]))))
+            (rootWords c (h.write a (.cont ty (keep ++ (if v.k = 0 then [] else [v.part])))) thread stack) x) :
+    (collect S c h thread stack).1.lookup x = h.lookup x ∧ (h.lookup x).isSome = true ∧ x ∉ (collect S c h thread stack).2 := by
+  obtain ⟨_, hpart, hfin⟩ := hsafe v hv
+  have hsub : ∀ e ∈ keep ++ (if v.k = 0 then [] else [v.part]), e ∈ v.elems := by
+    intro e he
+    rcases List.mem_append.mp he with h1 | h1
+    · obtain ⟨hf, hnd, hnz⟩ := hkeep e h1
+      rcases hfin e hf with h2 | h2 | h2
+      · exact mem_filterMap_id.mpr h2
+      · exact absurd h2 hnd
+      · exact absurd h2 hnz
+    · split at h1
+      · cases h1
+      · rename_i hk
+        rw [List.mem_singleton] at h1
+        rcases hpart with h2 | h2
+        · exact absurd h2 hk
+        · rw [h1]; exact mem_filterMap_id.mpr h2
+  have := mid_collection_safe S c h wf thread stack [] a _ hl _
+    (fun w hw => Or.inl (C01_fields_cont_mono c ty hsub w hw)) x hr
+  simpa using this
+
+end Cello.Heap
+
+namespace Cello.Heap.Mid
+open CelloGen.GcMid
+
+/-- the current source on a concrete Array: the record [4160, 4224] is pushed behind [5000, 5064]; the three allocation points of a two-field
+    record see the old element and the new one with 0, 1, 2 fields stored; the hypotheses of `C01_array_push_deep_safe` are met -/
+example : ((runOpD (Deep.words 2) .array .push (deepEnv Shape.array) [[5000, 5064]]).aviews.map fun v => (v.k, v.cells)) =
+    [(0, [some [5000, 5064], some [0, 0]]), (1, [some [5000, 5064], some [4160, 0]]), (2, [some [5000, 5064], some [4160, 4224]])] := by decide
+
+example : DeepSafe (deepEnv Shape.array) ((DMach.initCap [[5000, 5064]] (List.replicate 0 none)).exec (Deep.words 2) (deepEnv Shape.array) (prog .array false .push)) :=
+  C01_array_push_deep_safe _ _ 0 _ rfl
 
 end Cello.Heap.Mid
